@@ -91,7 +91,7 @@ func (l *List[T]) IsSorted(lt cmp.LessThan[T]) bool {
 		return true
 	}
 
-	for item := l.root.Next(); item.next.Ok(); item = item.Next() {
+	for item := l.Front().Next(); item.Ok(); item = item.Next() {
 		if lt(item.Value(), item.Previous().Value()) {
 			return false
 		}
